@@ -38,6 +38,7 @@ def run(ctx):
         "`?` on Result propagates Err to the caller (language semantics)",
         "reply classification (what counts as a positive acknowledgement) is C08's subject",
     ]
+    r8_run_verdict(chk, fx)      # form-independent; first, so that what it establishes stands even if a shape-bound rule below loses its anchor
     r1_run_chain(chk, fx)
     r2_load_config(chk, fx)
     r3_client_methods(chk, fx)
@@ -576,3 +577,70 @@ def r7_close_verdict(chk, fx):
                          detail=None if ok else "the step is reported successful although its request or reply failed: %s" % {k: v for k, v in p.assume.items() if "await" in k})
         chk.analysed(d)
     chk.floor("C04/R7 failing awaits in Session::close", n, 2)
+
+
+# ---------------------------------------------------------------------------------------------
+RUN_STEPS = ("connect", "open_db", "fetch_config", "load_config", "commit_config", "close_db", "close")
+
+
+def r8_run_verdict(chk, fx):
+    """The run's own verdict, whatever shape run() has (straight `?` chain, stages bound to Results and combined, helpers): explored
+    with every step of the client as an undecided outcome.  (a) run() returns Ok only on a path on which every step it made — and the
+    joined fetch/evaluate stage — succeeded; (b) after a step failed no further request is made except the closing ones; (c) on the
+    all-Ok path the steps come in the order connect, open_db, fetch_config, load_config, commit_config, close_db, close."""
+    from vlib import absint as A
+    b = fx.user_coroutine(RUN)
+
+    def step_of(fn):
+        s = T.strip_generics(fn)
+        for st in RUN_STEPS:
+            if s.endswith("::" + st) and (AGENT + "::netconf::" in s or "Target" in s or "Client" in s):
+                return st
+        return None
+
+    def hook(fn, args, node, interp):
+        st = step_of(fn)
+        if st is None:
+            return None
+        n = sum(1 for e in interp.trace if e[0] == "step" and e[1] == st) + 1
+        interp.trace.append(("step", st, n, node.get("sp")))
+        return ("term", "async-ready", (("sym", "STEP:%s#%d" % (st, n)),))
+    paths = A.Interp(fx, hook=hook, crates=(AGENT,), max_paths=4000).explore(b.name)
+    chk.analysed(b.name)
+
+    def outcome(p, st, n):
+        for k, v in p.assume.items():
+            if k.startswith("variant:") and ("«STEP:%s#%d»).await" % (st, n)) in k and k.endswith(".await") and v in ("Ok", "Err"):
+                return v
+            if k.startswith("notvariant:") and ("«STEP:%s#%d»).await" % (st, n)) in k and k.endswith(".await"):
+                return "Ok" if set(v) == {"Err"} else ("Err" if set(v) == {"Ok"} else None)
+        return None
+    n_ok = n_fail = 0
+    for p in paths:
+        if p.end == "abort":
+            continue
+        steps = [(e[1], e[2]) for e in p.trace if e[0] == "step"]
+        outs = [(st, n, outcome(p, st, n)) for st, n in steps]
+        failed = [(st, n) for st, n, o in outs if o == "Err"]
+        joined_err = any(k.startswith("variant:") and "poll_fn" in k and k.endswith(".await") and v == "Err" for k, v in p.assume.items())
+        is_ok = A.is_res(p.ret) and p.ret[2] == "Ok"
+        if is_ok:
+            n_ok += 1
+            good = not failed and not joined_err and all(o == "Ok" for _, _, o in outs)
+            chk.instance("C04/R8", "run() returns Ok only when every step it made succeeded (%d steps)" % len(steps), b.name, None, holds=good,
+                         key="C04/R8 run Ok-although-a-step-failed", detail=None if good else "failed or unchecked: %s" % [(st, o) for st, _, o in outs if o != "Ok"])
+            first = {}
+            for i, (st, _) in enumerate(steps):
+                first.setdefault(st, i)
+            order = [first.get(st) for st in RUN_STEPS]
+            ordered = None not in order and order == sorted(order)
+            chk.instance("C04/R8", "all-Ok path: connect, open_db, fetch_config, load_config, commit_config, close_db, close in this order", b.name, None,
+                         holds=ordered, key="C04/R8 run step-order", detail=None if ordered else str([st for st, _ in steps]))
+        elif failed:
+            n_fail += 1
+            st0, k0 = failed[0]
+            after = [st for (st, k) in steps[steps.index((st0, k0)) + 1:] if st not in ("close_db", "close")]
+            chk.instance("C04/R8", "after %s failed no further request is made (closing steps apart)" % st0, b.name, None, holds=not after,
+                         key="C04/R8 run continues-after-failed-%s" % st0, detail=None if not after else "then: %s" % after)
+    chk.floor("C04/R8 Ok paths of run()", n_ok, 1)
+    chk.floor("C04/R8 failing-step paths of run()", n_fail, 5)
